@@ -16,7 +16,12 @@ MANIFEST = dict(
          'by kernel evaluation, lifted to every kind x row x history), tied to the code by an exhaustive sweep under ASan+UBSan '
          '(-fno-sanitize-recover): every kind the factories produce x every state of its optional links x every accessor (universal '
          'observer), each in a forked child, plus random assignment histories and every Sequence implementation over all small slot '
-         'patterns with out-of-range / SIZE_MAX indices, both directions. PARTIAL: absence of undefined behaviour is not expressible in '
+         'patterns with out-of-range / SIZE_MAX indices, both directions (postfix ++/-- must hand back the position held). Every '
+         'declaration kind of a general scope is swept a second time as the SECOND declaration under a name already taken by a declaration '
+         'of each other kind (56 `X#after-Y` kinds with the rows of X: nothing declared earlier may fill in a link), and names are looked up '
+         'through the interface (region.bindings()[name], overload[type]) in base-class, parameter, enumerator, handler and general scopes '
+         'whose members repeat a name or cannot say theirs (a base of an unnamed class): the linear search of the model finds the first '
+         'member of that name and is refused at the first member whose name() raises -- in a forked child, so std::terminate is a result. PARTIAL: absence of undefined behaviour is not expressible in '
          'the model; the theorems fix which outcome is required, the sanitizers observe that nothing else happened on the swept states.',
     note='Lean kernel; axioms propext/Classical.choice/Quot.sound; std::vector/deque/forward_list/variant represented by their '
          'specification; outcome table hand-written from include/ipr/{interface,impl}; operands of swept nodes are complete nodes except '
@@ -209,6 +214,27 @@ def seq_patterns(tier, rng):
     return ops
 
 
+def lookup_ops(tier, rng):
+    """Look-ups by name through the interface in scopes some of whose members cannot say their name (`a`: a base-class subobject of
+    an unnamed class), repeat a name (`r`) or are ordinary (`s`): all patterns up to a length, then longer random ones."""
+    q = tier == 'quick'
+    ops = []
+    def pats(alpha, maxn, longer):
+        out = ['-']
+        for n in range(1, maxn + 1):
+            out += [''.join(p) for p in itertools.product(alpha, repeat=n)]
+        for _ in range(longer):
+            out.append(''.join(rng.choice(alpha) for _ in range(rng.randint(maxn + 1, 9))))
+        return list(dict.fromkeys(out))
+    for p in pats('sar', 3 if q else 5, 12 if q else 150):
+        ops.append('lookup bases ' + p)
+    for scope in ('params', 'enums', 'general'):
+        for p in pats('sr', 3 if q else 5, 4 if q else 40):
+            ops.append('lookup %s %s' % (scope, p))
+    ops.append('lookup eh s')
+    return ops
+
+
 def state_ops(kinds, tier, rng):
     ops = []
     for name, links in kinds.items():
@@ -332,6 +358,27 @@ class Judge:
                 self.violation('frame:%s.%s' % (kind, acc), 'accessor %s of %s reads no optional link according to the model, yet answers %s '
                                'after `%s` and %s after `%s`' % (acc, kind, v1, o1, v2, o2), o1 + '\n' + o2 + '\n# accessor ' + acc, found=False)
 
+    def lookup(self, op, impl, model):
+        key = ' '.join(op.split()[:2])
+        if impl is None or impl[0].startswith('!CRASH') or 'CRASH-AFTER' in impl[0]:
+            self.violation('crash:' + key, 'the probe died (std::terminate / sanitizer report / signal) on `%s`: %s -- a name that cannot be '
+                           'read has to reach the caller as a std::logic_error' % (op, impl and impl[0]), op)
+            return
+        ans, asserts = impl
+        if '!X' in ans or 'escaped' in ans:
+            self.violation('nonlogic:' + key, '`%s`: an exception that is not a std::logic_error, or one that escaped: %s' % (op, ans), op)
+            return
+        bad = [a for a in asserts if not a.endswith('=1')]
+        if bad:
+            self.violation('lookup:' + key, '`%s`: implementation assertion failed: %s' % (op, bad), op)
+            return
+        self.outcomes['lookup'] = self.outcomes.get('lookup', 0) + 1
+        if ans != model:
+            mi = re.match(r'byname=\[(.*)\]$', ans or '')
+            mm = re.match(r'byname=\[(.*)\]$', model or '')
+            unref = bool(mi and mm) and any(b == '!L' and a != '!L' for a, b in zip(re.split(r'[,|]', mi.group(1)), re.split(r'[,|]', mm.group(1))))
+            self.violation(('unrefused:' if unref else 'outcome:') + key, '`%s`\n impl : %s\n model: %s' % (op, ans, model), op, found=unref)
+
     def seq(self, op, impl, model):
         key = ' '.join(op.split()[:2])
         if impl is None or impl[0].startswith('!CRASH') or 'CRASH-AFTER' in impl[0]:
@@ -382,6 +429,8 @@ def judge_all(res, probe, ops, model_kinds, timeout):
         impl = blocks.get(e)
         if op.startswith(('state', 'hist')):
             J.state(op, impl, model.get(e))
+        elif op.startswith('lookup'):
+            J.lookup(op, impl, model.get(e))
         else:
             J.seq(op, impl, model.get(e))
     J.frame()
@@ -418,7 +467,7 @@ def run(tier):
     for k in not_probed:
         res.violation('correspondence:kind:' + k, 'the model table has kind %s, the probe does not build it' % k,
                       'correspondence: kind ' + k, found_input=False)
-    ops = state_ops(kinds, tier, rng) + seq_patterns(tier, rng)
+    ops = state_ops(kinds, tier, rng) + seq_patterns(tier, rng) + lookup_ops(tier, rng)
     J, blocks = judge_all(res, probe, ops, model_kinds, 600 if tier == 'quick' else 3000)
     for key, desc, path, found in res.violations:          # attach the sanitizer's own words to crash reports
         if key.startswith('crash:') and path:
@@ -437,13 +486,16 @@ def run(tier):
     res.cov['link_states_swept'] = nstate
     res.cov['assignment_histories'] = sum(1 for o in ops if o.startswith('hist'))
     res.cov['sequence_cases'] = sum(1 for o in ops if o.startswith('seq'))
+    res.cov['lookup_cases'] = sum(1 for o in ops if o.startswith('lookup'))
+    res.cov['kinds_swept_as_second_declaration_under_a_name_taken_by_another_kind'] = sum(1 for k in kinds if '#after-' in k)
     res.cov['accessor_observations'] = dict(J.outcomes)
     res.cov['links_per_kind_distribution'] = {str(n): sum(1 for l in kinds.values() if len(l) == n) for n in range(0, 7)}
     res.cov['unmodelled_kinds'] = unmodelled_kinds
     res.cov['unmodelled_accessors'] = {k: sorted(v) for k, v in sorted(J.unmodelled.items()) if v}
     res.cov['exhaustive'] = True
     res.cov['exhaustive_over'] = 'every kind of the probe registry x every combination of link states x every accessor the universal observer knows'
-    for o in ('state Var 10110', 'state For 1012', 'state Fundecl 20000', 'seq ref uusns', 'seq typedref spus', 'seq warehouse-product us'):
+    for o in ('state Var 10110', 'state For 1012', 'state Fundecl 20000', 'state Template#secondary#after-Fundecl 000000', 'seq ref uusns',
+              'seq typedref spus', 'seq warehouse-product us', 'lookup bases sas', 'lookup general srs'):
         b = blocks.get(echo_of(o))
         if b:
             res.sample({'op': o, 'impl': b[0][:600]})
@@ -451,7 +503,8 @@ def run(tier):
         'PARTIAL: undefined behaviour is observed by ASan+UBSan (-fno-sanitize-recover=all) on the swept states only; it is not a theorem',
         'operands given to the factories are complete nodes (typed, named); only the delegating accessors are swept with an incomplete operand',
         'links are set the way a client does: public data members of the impl classes (master declaration data for home region, linkage, definition)',
-        'which accessors exist is decided by harness/observe.hxx; lookup operators needing a key are not called',
+        'which accessors exist is decided by harness/observe.hxx; look-ups by name are exercised by the `lookup` ops only (five scope kinds, '
+        'members with own / repeated / unreadable names); the `X#after-Y` kinds reuse the KindSpec of X (Outcome.sweptKinds)',
     ]
     return res.finish(info, rule='each op runs in a forked child of the initialised probe; `state K d1..dn` builds a fresh node of kind K, puts link i '
                       'in state di, observes every accessor; `hist` applies a random assignment history; `seq` exercises one Sequence '
@@ -460,7 +513,7 @@ def run(tier):
 
 def replay(path):
     ops = [l.strip() for l in open(path) if l.strip() and not l.startswith(('#', 'correspondence:', 'theorem'))]
-    ops = [o for o in ops if o.split()[0] in ('state', 'hist', 'seq', 'optional')]
+    ops = [o for o in ops if o.split()[0] in ('state', 'hist', 'seq', 'optional', 'lookup')]
     C.lean_build(['model_c14'])
     probe = build_probe()
     if not ops:
